@@ -121,9 +121,29 @@ def remesh_fault_cases(rng, kmax, per_mesh):
     return cases
 
 
+def faces3_fault_cases(rng, max_sides, per_map, kmax, reps=1):
+    """3-D stream: every map of the glued-faces family (<= 2 faces, closed and open, <= max_sides sides) after 0..4 random
+    link/sew ops (which create the 2- and 3-links), then ONE link/unlink/sew/unsew (plain and force_ variants, all dimensions)
+    with the k-th attribute-law call failing; full snapshot before and after"""
+    cases = []
+    for rep in range(reps):
+        for pre in (0, 2, 4):
+            for name, lines in gens.faces3_cases(rng, max_faces=2, max_sides=max_sides, per_map=per_map, pre_ops=pre,
+                                                 snap_before=True, distinct=True):
+                j = lines.index("snap")
+                i = len(lines) - 1 - lines[::-1].index("snap")
+                k = rng.randint(0, kmax)
+                l2 = lines[:j + 1] + ([f"fault {k}"] if k else []) + lines[j + 1:i + 1]
+                cases.append(Case(f"{name}-p{pre}r{rep}", l2, oracle="unchanged", meta={"sig": "3d " + l2[-2].split()[0], "k": k}))
+    return cases
+
+
 def run(tier, seed):
     rng = random.Random(seed)
     parts = []
+    parts.append(("3-maps: glued-faces family, one (force_)link/unlink/sew/unsew of any dimension, fault positions k<=8",
+                  hv.campaign(faces3_fault_cases(rng, 3 if tier == "quick" else 4, 30 if tier == "quick" else 80, 8,
+                                                 1 if tier == "quick" else 3), oracle_unchanged, canon=canon)))
     parts.append(("remeshing kernels (swap / cut / collapse) with fault positions k<=12",
                   hv.campaign(remesh_fault_cases(rng, 12, 12 if tier == "quick" else 24), oracle_unchanged, canon=canon)))
     if tier == "quick":
